@@ -72,6 +72,13 @@ def midi_to_note_sequence(midi_data):
                                 (sys.exc_info()[0], sys.exc_info()[1]))
   # pylint: enable=bare-except
 
+  if midi.resolution <= 0:
+    # A negative time division means SMPTE timing, which pretty_midi does not
+    # support: ticks are converted with a negative scale and tempo changes end
+    # up at negative times.
+    raise MIDIConversionError(
+        'Unsupported MIDI time division: %d' % midi.resolution)
+
   sequence = music_pb2.NoteSequence()
 
   # Populate header.
